@@ -191,6 +191,11 @@ def _finally_filter(run, P):
 
 def _handlers_in(tree):
     out = []
+    for fn in ast.walk(tree):
+        if isinstance(fn, (ast.FunctionDef, ast.AsyncFunctionDef)):
+            for t in ast.walk(fn):
+                if isinstance(t, ast.Try):
+                    t._verif_fns = getattr(t, "_verif_fns", []) + [fn]     # all enclosing functions
     for t in ast.walk(tree):
         if isinstance(t, ast.Try):
             for h in t.handlers:
@@ -205,6 +210,11 @@ _PURE_CALLS = {"len", "sorted", "isinstance", "getattr", "hasattr", "dict", "lis
 _PURE_METHODS = {"get", "items", "keys", "values", "append", "extend", "add", "discard", "copy",
                  "startswith", "endswith", "format", "join", "split", "index", "count", "debug",
                  "info", "warning", "popleft", "appendleft"}
+
+
+def _is_param(try_node, name):
+    return any(name in {a.arg for a in fn.args.posonlyargs + fn.args.args + fn.args.kwonlyargs}
+               for fn in getattr(try_node, "_verif_fns", []))
 
 
 def _handler_standing(h):
@@ -236,6 +246,10 @@ def _handler_standing(h):
                 continue
             if isinstance(x.func, ast.Subscript) or d.startswith("self.") or d in (
                     "func", "function", "f") or "functions" in norm(x.func):
+                return "reach"
+            if isinstance(x.func, (ast.Call,)) or (isinstance(x.func, ast.Name) and not _is_param(t, x.func.id)):
+                # looked up at run time (getattr(target, 'exec_' + ...)(...)), or a local
+                # holding such a thing: these classes are the paths to the user's functions
                 return "reach"
             verdict = "unknown"
     return verdict
